@@ -6,7 +6,7 @@ from harness.common import Broken, COQ, REPO
 from translator import pygen
 
 PID = "C13"
-STRATS = ["random", "random", "consumer_first", "consumer_last", "starve_worker", "lowest", "highest", "bursty", "timeout_then_workers"]
+STRATS = ["random", "random", "consumer_first", "consumer_last", "starve_worker", "lowest", "highest", "bursty", "timeout_then_workers", "check_then_act"]
 
 
 def gen_trials(ctx):
@@ -26,6 +26,9 @@ def gen_trials(ctx):
         {"T": 2, "n": 6, "seed": 11, "fail": None, "take": None, "strategy": "consumer_last", "before": [[5, None], [3, None]]},
         {"T": 2, "n": 2, "seed": 12, "fail": None, "take": None, "strategy": "timeout_then_workers"},
         {"T": 3, "n": 3, "seed": 13, "fail": None, "take": None, "strategy": "timeout_then_workers"},
+        {"T": 2, "n": 8, "seed": 14, "fail": 0, "take": None, "strategy": "check_then_act"},
+        {"T": 3, "n": 9, "seed": 15, "fail": 1, "take": None, "strategy": "check_then_act"},
+        {"T": 2, "n": 6, "seed": 16, "fail": None, "take": 2, "strategy": "check_then_act"},
     ]
     for i in range(ctx.scale(150, 3000)):
         T = rng.choice([1, 1, 2, 2, 2, 3, 3, 4])
